@@ -455,6 +455,28 @@ func c07Backend(c *core.Ctx, base string) {
 					ch.(*file.FileBackend).Close()
 					lab.Quiesce()
 					c.Outcome("backend", fmt.Sprint(seq))
+					// the same events, closed right after the last Send returned (no flush tick in between):
+					// once Close has returned, every accepted event is in the files
+					if len(seq) <= 3 {
+						os.RemoveAll(dir)
+						os.MkdirAll(dir, 0755)
+						if ch2, err := c07NewBackend(path, 1024); err == nil {
+							stuck2 := false
+							sendAll(ch2, seq, &stuck2)
+							closed := make(chan struct{})
+							go func() { ch2.(*file.FileBackend).Close(); close(closed) }()
+							lab.Quiesce()
+							c.Count("executions", 1)
+							select {
+							case <-closed:
+								if !stuck2 {
+									check(name+" then Close without waiting for the flush", path, 1024, seq)
+								}
+							default:
+								c.Violationf("C07:backend:close-blocked", "%s: Close has not returned although everything is quiescent", name)
+							}
+						}
+					}
 				}
 				if len(seq) == depth {
 					return
